@@ -16,7 +16,7 @@ type c01 struct{ base }
 
 func init() {
 	runner.Register(&c01{base{id: "C01", level: "exploration",
-		rule: "exhaustive: every sequence of <=4 (thorough <=5) ops over 2 near-colliding keys (blocks of 64 sequences rotate through a.b|c / a|b.c, a\\|.b / a.|b and the confusable pairs of mon.ConfusablePairs) x 8 op templates {put full, put small, update SET, update REMOVE, update ADD, delete, delete ALL_OLD, get}, hash-only and hash+range schemas, both adapters; seeded: histories of 40-80 ops over 3-6 hostile keys, key types rotating over S/S, N/S, S/N, B/B, N/N (string parts incl. numeral-looking strings, number parts re-written in other notations of the same value). After EVERY step the complete observable state (GetItem of every key used so far, base Scan as a set, DescribeTable.ItemCount) is compared with the model map. non-trivial = history contains an overwrite, a delete-then-re-put or an update-created item and touches >=2 keys; distinct by (schema, adapter, op-kind sequence, key-index sequence).",
+		rule: "exhaustive: every sequence of <=4 (thorough <=5) ops over 2 near-colliding keys (blocks of 64 sequences rotate through a.b|c / a|b.c, a\\|.b / a.|b and the confusable pairs of mon.ConfusablePairs) x 8 op templates {put full, put small, update SET, update REMOVE, update ADD, delete, delete ALL_OLD, get}, hash-only and hash+range schemas, both adapters; seeded: histories of 40-80 ops over 3-6 hostile keys, key types rotating over S/S, N/S, S/N, B/B, N/N (string parts incl. numeral-looking strings, number parts re-written in other notations of the same value). After EVERY step the complete observable state (GetItem of every key used so far, base Scan as a set, DescribeTable.ItemCount) is compared with the model map. non-trivial = history contains an overwrite, a delete-then-re-put or an update-created item and touches >=2 keys; distinct by (schema, adapter, op-kind sequence, key-index sequence). Seeded histories also edit a shopping-cart document three and four steps below the attribute and guard deletes with one-member IN conditions on a BOOL / a whole list.",
 		assumptions: commonAssumptions}})
 }
 
